@@ -54,6 +54,23 @@ Permute(T, p) ==
                          idx == [d \in 1 .. n |-> idx2[qinv[d]]]
                      IN  T.coef[Flatten(idx, T.naxes) + 1]]]
 
+(* the relocation loop of permuteDimensions as the code performs it: a scatter - every old position is decomposed with the old     *)
+(* strides and sent to the sum of its indices times the NEW stride of the dimension each index moves to (iperm)                  *)
+PermuteScatterCoef(T, p) ==
+    LET n == T.ndim
+        q == [i \in 1 .. n |-> p[i] + 1]
+        iperm == [d \in 1 .. n |-> CHOOSE i \in 1 .. n : q[i] = d]                   \* new position of old dimension d
+        nax2 == [i \in 1 .. n |-> T.naxes[q[i]]]
+        s2 == StridesOf(nax2)
+        NewPos(pos) == LET RECURSIVE S(_) S(d) == IF d > n THEN 0 ELSE ((pos \div T.strides[d]) % T.naxes[d]) * s2[iperm[d]] + S(d + 1) IN S(1)
+        img == [pos \in 0 .. Len(T.coef) - 1 |-> NewPos(pos)]
+    IN  [f \in 1 .. Len(T.coef) |-> T.coef[(CHOOSE pos \in 0 .. Len(T.coef) - 1 : img[pos] = f - 1) + 1]]
+ScatterIsBijection(T, p) ==
+    LET n == T.ndim  q == [i \in 1 .. n |-> p[i] + 1]  iperm == [d \in 1 .. n |-> CHOOSE i \in 1 .. n : q[i] = d]
+        s2 == StridesOf([i \in 1 .. n |-> T.naxes[q[i]]])
+        NewPos(pos) == LET RECURSIVE S(_) S(d) == IF d > n THEN 0 ELSE ((pos \div T.strides[d]) % T.naxes[d]) * s2[iperm[d]] + S(d + 1) IN S(1)
+    IN  {NewPos(pos) : pos \in 0 .. Len(T.coef) - 1} = 0 .. Len(T.coef) - 1
+
 (* the operation as the library must perform it: anything that is not a permutation is refused, table unchanged *)
 PermuteOp(T, p) == IF IsPermutation(p, T.ndim) THEN [ok |-> TRUE, table |-> Permute(T, p)] ELSE [ok |-> FALSE, table |-> T]
 
